@@ -224,3 +224,142 @@ func (e *Exec) searchModel(cond *Term) map[string]string {
 	}
 	return nil
 }
+
+// interestingValues: candidate concrete values for counterexample search —
+// small integers and 18-decimal fractions k/n rounded down and up (the inputs
+// on which rounding defects show).
+var interestingValues = func() []string {
+	seen := map[string]bool{}
+	var out []string
+	add := func(v *big.Int) {
+		s := v.String()
+		if !seen[s] {
+			seen[s] = true
+			out = append(out, s)
+		}
+	}
+	for i := int64(0); i <= 12; i++ {
+		add(big.NewInt(i))
+	}
+	for _, i := range []int64{15, 20, 21, 30, 33, 50, 99, 100, 101, 333, 1000, 1000000, 1000001} {
+		add(big.NewInt(i))
+	}
+	S := new(big.Int).Set(bigS)
+	for n := int64(1); n <= 9; n++ {
+		for k := int64(1); k <= 40; k++ {
+			if k > 12 && k%5 != 0 && k != 34 {
+				continue
+			}
+			num := new(big.Int).Mul(big.NewInt(k), S)
+			q, r := new(big.Int).QuoRem(num, big.NewInt(n), new(big.Int))
+			add(q)
+			if r.Sign() != 0 {
+				add(new(big.Int).Add(q, big.NewInt(1)))
+			}
+		}
+	}
+	add(new(big.Int).Add(S, big.NewInt(1)))
+	add(new(big.Int).Sub(S, big.NewInt(1)))
+	add(new(big.Int).Add(S, big.NewInt(2)))
+	return out
+}()
+
+var smallInts = func() []string {
+	var out []string
+	for i := int64(0); i <= 40; i++ {
+		out = append(out, big.NewInt(i).String())
+	}
+	for _, i := range []int64{50, 99, 100, 101, 333, 1000, 1000000, 1000001} {
+		out = append(out, big.NewInt(i).String())
+	}
+	return out
+}()
+
+// fuzzViolation searches concretely for an assignment that satisfies the path
+// condition and q (the negated assertion). It is used after the solver answered
+// "unknown": mutations of the current model over the variables q mentions, with
+// values drawn per kind (amounts: small integers; decimals: 18-decimal fractions
+// k/n rounded down and up; instants: neighbours), sometimes giving several
+// decimals the same value. Any hit is replayed natively before being reported; a
+// miss proves nothing (the obligation stays inconclusive).
+func (e *Exec) fuzzViolation(q *Term, budget int) map[string]string {
+	if e.model == nil {
+		return nil
+	}
+	var names []string
+	for _, v := range e.tc.vars {
+		if v.sort == SInt {
+			n := strings.Trim(v.ref, "|")
+			if !strings.HasPrefix(n, "time.Now") {
+				names = append(names, n)
+			}
+		}
+	}
+	if len(names) == 0 {
+		return nil
+	}
+	base := e.model.vals
+	seed := uint64(88172645463325252) + uint64(len(e.pc))*7919 + uint64(e.h.seed)
+	next := func(n int) int {
+		seed ^= seed << 13
+		seed ^= seed >> 7
+		seed ^= seed << 17
+		return int(seed % uint64(n))
+	}
+	pick := func(name string) string {
+		switch e.tc.varKind[name] {
+		case 'd':
+			return interestingValues[next(len(interestingValues))]
+		case 't':
+			cur, ok := new(big.Int).SetString(base[name], 10)
+			if !ok {
+				return base[name]
+			}
+			d := []int64{0, 1, -1, 86400000000000, -86400000000000, 1000000000}[next(6)]
+			return new(big.Int).Add(cur, big.NewInt(d)).String()
+		}
+		return smallInts[next(len(smallInts))]
+	}
+	// random walk inside the feasible region: a proposal that keeps the path
+	// condition true becomes the new base; q is tested at every feasible point
+	pcHolds := func(vals map[string]string) (*Model, bool) {
+		m := newModel(vals)
+		for _, p := range e.pc {
+			if v, ok := m.evalBool(p); !ok || !v {
+				return nil, false
+			}
+		}
+		return m, true
+	}
+	cur := base
+	for it := 0; it < budget; it++ {
+		vals := make(map[string]string, len(cur)+3)
+		for k, x := range cur {
+			vals[k] = x
+		}
+		nm := 1 + next(3)
+		shared := ""
+		for j := 0; j < nm; j++ {
+			n := names[next(len(names))]
+			v := pick(n)
+			if e.tc.varKind[n] == 'd' {
+				if shared != "" && next(2) == 0 {
+					v = shared
+				}
+				shared = v
+			}
+			vals[n] = v
+		}
+		m, ok := pcHolds(vals)
+		if !ok {
+			continue
+		}
+		if v, ok2 := m.evalBool(q); ok2 && v {
+			return vals
+		}
+		if next(3) != 0 {
+			cur = vals
+		}
+	}
+	return nil
+}
